@@ -255,13 +255,15 @@ func FindAllBuildFiles(config *core.Configuration, rootPath, prefix string) <-ch
 				return filepath.SkipDir // Skip any directory without the prefix we're after (but not any directory beneath that)
 			} else if config.IsABuildFile(basename) && !isDir {
 				ch <- name
-			} else if cli.ContainsString(name, config.Parse.ExperimentalDir) {
-				return filepath.SkipDir // Skip the experimental directory if it's set
+			} else if isDir && name != rootPath && cli.ContainsString(name, config.Parse.ExperimentalDir) {
+				return filepath.SkipDir // Skip the experimental directory if it's set (unless it's what we were asked to walk)
 			}
-			// Check against blacklist
-			for _, dir := range config.Parse.BlacklistDirs {
-				if dir == basename || strings.HasPrefix(name, dir) {
-					return filepath.SkipDir
+			// Check against blacklist. Only directories can be skipped, and they match by whole path components.
+			if isDir {
+				for _, dir := range config.Parse.BlacklistDirs {
+					if dir == basename || name == dir || strings.HasPrefix(name, dir+"/") {
+						return filepath.SkipDir
+					}
 				}
 			}
 			return nil
